@@ -598,8 +598,8 @@ func copyDefs(d *definition.PipelinesDef) *definition.PipelinesDef {
 }
 
 type World struct {
-	runnerDefs    []*definition.PipelinesDef
-	quiescentViol []Violation
+	runnerDefs     []*definition.PipelinesDef
+	quiescentViol  []Violation
 	S              *vsched.Sched
 	R              *prunner.PipelineRunner
 	Opts           WorldOpts
